@@ -222,6 +222,16 @@ def a_broadcast_diagonal(rng: Any, s: Any) -> Any:
     shapes = [l.shape for l in ls]
     if any(len(sh) == 0 for sh in shapes) or size_of(s) * 2 > MAX_SIZE:
         return None
+    if len({len(sh) for sh in shapes}) == 1:
+        # a length-1 axis of every leaf facing a longer axis of the values: the product STRETCHES that axis (NumPy broadcasting),
+        # so the transpose has to sum over it
+        ones = [a for a in range(len(shapes[0])) if all(sh[a] == 1 for sh in shapes)]
+        if ones and rng.integers(2):
+            a = int(pick(rng, ones))
+            k = int(rng.integers(2, 4))
+            if rng.integers(2) and a + 1 < len(shapes[0]) and len({sh[a + 1] for sh in shapes}) == 1:
+                return BroadcastDiagonalOperator(dy(rng, (k, shapes[0][a + 1]), dt), axis_destination=(a, a + 1), in_structure=s)
+            return BroadcastDiagonalOperator(dy(rng, (k,), dt), axis_destination=a if rng.integers(2) else a - len(shapes[0]), in_structure=s)
     if len({sh[-1] for sh in shapes}) == 1 and rng.integers(2):
         # extends the input on the left: values (2, n_last) on axes (-r-1, -1) is not expressible
         # for different ranks, use the scalar negative form on equal ranks only
@@ -983,7 +993,7 @@ def operator_of_class(rng: Any, name: str) -> Any:
     if name == 'HomothetyOperator':
         return a_homothety(rng, pick(rng, [leaf, stokes, cont]))
     if name == 'BroadcastDiagonalOperator':
-        return a_broadcast_diagonal(rng, u['v3']) or a_broadcast_diagonal(rng, u['m23'])
+        return a_broadcast_diagonal(rng, u[pick(rng, ['v3', 't213', 'm23'])]) or a_broadcast_diagonal(rng, u['m23'])
     if name == 'DiagonalOperator':
         return a_diagonal(rng, pick(rng, [leaf, u['list_eq']]))
     if name == 'DiagonalInverseOperator':
